@@ -229,9 +229,10 @@ macro_rules! adapters {
             /// Pairwise distinct, irregular sample weights: class frequencies (weighted sums) then tie only by
             /// coincidence, so the modal class of a node does not depend on HashMap order.
             fn weights(n: usize) -> Array1<f32> {
+                // not linear in the index (a linear rule makes subsets with equal index sums tie exactly)
                 Array1::from_shape_fn(n, |i| {
-                    let frac = ((i as f64 + 1.0) * 0.618_033_988_749_894_9).fract();
-                    (1.0 + frac * 0.5) as f32
+                    let mut g = vengine::gen::SplitMix(0x5eed_0000 + i as u64);
+                    (1.0 + g.unit() * 0.5) as f32
                 })
             }
 
